@@ -4,6 +4,8 @@ import LdkModel.Generated.MsgSchemas
 import LdkModel.Model.MsgSchemasHand
 import LdkModel.Model.MsgCustom
 import LdkModel.Generated.WireTypes
+import LdkModel.Model.MsgBitcoin
+import LdkModel.Model.Int64
 /-! C13 model driver.  ops:
     dec <MsgName> <hex>    decode with the generated schema of <MsgName>; `ok <hex of re-encoding>` / `err <DecodeError>`
     wire <hex>             wireRead over the generated dispatch table; `ok <Name> <id> <re-encoding>` /
@@ -11,6 +13,13 @@ import LdkModel.Generated.WireTypes
                            custom codecs (Model/MsgCustom.lean) append the parsed structure to the `ok` line:
                            (Unsigned)NodeAnnouncement ` a=<descriptor type bytes, comma separated> x=<len excess_address_data> e=<len excess_data>`,
                            QueryShortChannelIds / ReplyChannelRange ` n=<number of ids>`; OnionMessage ` h=<len hop_data>`; Init: nothing
+                           bitcoin-consensus / blinded-path messages (Model/MsgBitcoin.lean): TxAddInput ` t=none` | ` t=<inputs>,<outputs>,<witness elements>`,
+                           TxSignatures ` w=<elements per witness, comma separated>`, RevokeAndACK ` p=<hops per path, comma separated>`
+    tx <hex>               Btc.decodeTx (bitcoin consensus decoding as LDK's `Readable for Transaction` maps its errors);
+                           `ok <re-encoding> <rest hex> <inputs>,<outputs>,<witness elements>` / `err <DecodeError>`
+    wit <hex>              Btc.decodeWitness; `ok <re-encoding> <rest hex> <size()>` / `err ..`
+    cs <hex>               Btc.CompactSize.decode; `ok <n> <rest hex>` / `err ..`
+    i64 <hex>              readI64 (two's complement); `ok <decimal> <rest hex>` / `err ..`
     bigsize <hex>          BigSize.decode; `ok <n> <rest hex>` / `err <DecodeError>`
     bigenc <n>             BigSize.encode -/
 namespace Ldk.Driver
@@ -47,12 +56,60 @@ def customDec (name : String) (b : Bytes) : Option (Except String (String × Str
     some (match Custom.decodeOnionMsg b with
       | .ok (m, _) => .ok (hex (Custom.encodeOnionMsg m), s!" h={Custom.hopLenOf m.packet}")
       | .error e => .error e.name)
+  else if name == "TxAddInput" then
+    some (match Btc.decodeTxAddInput b with
+      | .ok m => .ok (hex (Btc.encodeTxAddInput m), " t=" ++ (match m.prevtx with
+          | none => "none"
+          | some t => s!"{t.inputs.length},{t.outputs.length},{(t.inputs.map (·.2.length)).sum}"))
+      | .error e => .error e.name)
+  else if name == "TxSignatures" then
+    some (match Btc.decodeTxSignatures b with
+      | .ok m => .ok (hex (Btc.encodeTxSignatures m), " w=" ++ ",".intercalate (m.witnesses.map fun w => toString w.length))
+      | .error e => .error e.name)
+  else if name == "RevokeAndACK" then
+    some (match Btc.decodeRevokeAndAck b with
+      | .ok m => .ok (hex (Btc.encodeRevokeAndAck m), " p=" ++ ",".intercalate (m.paths.map fun p => toString p.hops.len))
+      | .error e => .error e.name)
   else none
 
-/-- wire ids of the custom-decoder messages that `wire::do_read` dispatches -/
+/-- answer of the decoders of Model/MsgSchemasHand.lean that are not a `Schema`: the `TailSchema` gossip messages, ErrorMessage /
+    WarningMessage / Ping / Pong; `none` = not one of them -/
+def handDec (name : String) (b : Bytes) : Option (Except String (String × String)) :=
+  match Hand.tailSchemas.find? (fun s => s.name == name) with
+  | some s =>
+    some (match s.decode b with
+      | .ok (vs, ex) => .ok (hex (s.encode vs ex), "")
+      | .error e => .error e.name)
+  | none =>
+    if name == "ErrorMessage" || name == "WarningMessage" then
+      some (match Hand.decodeErrorMsg b with
+        | .ok (cid, d) => .ok (hex (Hand.encodeErrorMsg cid d), "")
+        | .error e => .error e.name)
+    else if name == "Ping" then
+      some (match Hand.decodePing b with
+        | .ok (pl, bl) => .ok (hex (Hand.encodePing pl bl), "")
+        | .error e => .error e.name)
+    else if name == "Pong" then
+      some (match Hand.decodePong b with
+        | .ok bl => .ok (hex (Hand.encodePong bl), "")
+        | .error e => .error e.name)
+    else none
+
+/-- every decoder that is not a plain `Schema` -/
+def otherDec (name : String) (b : Bytes) : Option (Except String (String × String)) :=
+  match handDec name b with
+  | some r => some r
+  | none => customDec name b
+
+/-- wire ids of the messages `wire::do_read` dispatches whose decoder is not a plain `Schema` -/
 def customWire : List (Nat × String) :=
   wireDispatch.filterMap fun n =>
-    if Custom.customNames.contains n then (wireTypes.lookup n).map (·, n) else none
+    if Custom.customNames.contains n || Btc.btcNames.contains n || Hand.customNames.contains n || Hand.tailSchemas.any (fun s => s.name == n)
+    then (wireTypes.lookup n).map (·, n) else none
+
+/-- every dispatched arm of `wire::do_read` has a model decoder: a `Schema` in `wireTable` or one of `customWire` -/
+def wireModelled : Bool := wireDispatch.all fun n =>
+  (wireTypes.lookup n).any fun t => (wireTable.lookup t).isSome || (customWire.lookup t).isSome
 
 def c13 : Drv where
   σ := Unit
@@ -66,31 +123,13 @@ def c13 : Drv where
         | .ok v => ((), "ok " ++ hex (s.encode v))
         | .error e => ((), "err " ++ e.name)
       | none =>
-        match Hand.tailSchemas.find? (fun s => s.name == name) with
-        | none =>
-          if name == "ErrorMessage" || name == "WarningMessage" then
-            match Hand.decodeErrorMsg (unhex h) with
-            | .ok (cid, d) => ((), "ok " ++ hex (Hand.encodeErrorMsg cid d))
-            | .error e => ((), "err " ++ e.name)
-          else if name == "Ping" then
-            match Hand.decodePing (unhex h) with
-            | .ok (pl, bl) => ((), "ok " ++ hex (Hand.encodePing pl bl))
-            | .error e => ((), "err " ++ e.name)
-          else if name == "Pong" then
-            match Hand.decodePong (unhex h) with
-            | .ok bl => ((), "ok " ++ hex (Hand.encodePong bl))
-            | .error e => ((), "err " ++ e.name)
-          else match customDec name (unhex h) with
-            | some (.ok (re, suffix)) => ((), "ok " ++ re ++ suffix)
-            | some (.error e) => ((), "err " ++ e)
-            | none => ((), "no-schema")
-        | some s =>
-          match s.decode (unhex h) with
-          | .ok (vs, ex) => ((), "ok " ++ hex (s.encode vs ex))
-          | .error e => ((), "err " ++ e.name)
+        match otherDec name (unhex h) with
+        | some (.ok (re, suffix)) => ((), "ok " ++ re ++ suffix)
+        | some (.error e) => ((), "err " ++ e)
+        | none => ((), "no-schema")
     | ["wire", h] =>
       match (match readUint 2 (unhex h) with
-             | .ok (t, r) => (customWire.lookup t).bind fun n => (customDec n r).map fun ans => (t, n, ans)
+             | .ok (t, r) => (customWire.lookup t).bind fun n => (otherDec n r).map fun ans => (t, n, ans)
              | .error _ => none) with
       | some (t, n, .ok (re, _)) => ((), s!"ok {n} {t} " ++ re)   -- same line format as the schema messages
       | some (_, _, .error e) => ((), "err " ++ e)
@@ -103,6 +142,22 @@ def c13 : Drv where
         | none => ((), "bad-table")
       | .ok (.unknown t) =>
         ((), s!"ok Unknown {t} " ++ (match peerDispatch (.unknown t) with | .ignore => "ignore" | .disconnect => "disconnect" | .handle => "handle"))
+    | ["tx", h] =>
+      match Btc.decodeTx (unhex h) with
+      | .ok (t, r) => ((), s!"ok {hex (Btc.encodeTx t)} {hex r} {t.inputs.length},{t.outputs.length},{(t.inputs.map (·.2.length)).sum}")
+      | .error e => ((), "err " ++ e.name)
+    | ["wit", h] =>
+      match Btc.decodeWitness (unhex h) with
+      | .ok (w, r) => ((), s!"ok {hex (Btc.encodeWitness w)} {hex r} {Btc.witnessSize w}")
+      | .error e => ((), "err " ++ e.name)
+    | ["cs", h] =>
+      match Btc.CompactSize.decode (unhex h) with
+      | .ok (n, r) => ((), s!"ok {n} " ++ hex r)
+      | .error e => ((), "err " ++ e.name)
+    | ["i64", h] =>
+      match readI64 (unhex h) with
+      | .ok (i, r) => ((), s!"ok {i} " ++ hex r)
+      | .error e => ((), "err " ++ e.name)
     | ["bigsize", h] =>
       match BigSize.decode (unhex h) with
       | .ok (n, r) => ((), s!"ok {n} " ++ hex r)
